@@ -188,31 +188,51 @@ def run_plan(pid, tier, seed):
                   make_cases(maps4, 4, rng, prefixes=plan["prefixes"][:2], modes=plan["modes"], mutants=plan["mutants"],
                              multis=plan["multis"], updates=plan["updates"], limit=plan["extra_n4"])]
     C.log("[%s] %d maps exported by TLC, %d cases" % (pid, len(maps), len(cases)))
-    # 3. the real code
-    recs, hangs = run_proofs(cases, pid)
-    for h in hangs:
-        p = C.write_replay(pid, "hang-%d" % len(violations), dict(kind="hang", what=h))
-        violations.append(dict(prop=pid, replay=p, what="verifier or prover did not return: " + h[:200]))
-    # 4. TLC judges every record
-    bad = validate_records(recs, pid)
+    # 3./4. the real code, judged by TLC record by record - in chunks of cases, so that a thorough run
+    #       (thousands of cases, millions of verifier calls) never holds more than one chunk in memory
     by_case = {c["id"]: c for c in cases}
     attributed = {}
-    for i in bad:
-        rec = recs[i]
-        prop = classify(rec)
-        fid = findings.match_generic("trie-record", prop, dict(k=rec.get("k"), verify=rec.get("verify"),
-                                                                cls=str(rec.get("src", "")).split(":")[1] if ":" in str(rec.get("src", "")) else rec.get("src"),
-                                                                mclass=re.sub(r"[0-9@]+", "", str(rec.get("src", "")).split(":")[1]) if ":" in str(rec.get("src", "")) else ""))
-        if fid:
-            known.append(fid)
-            continue
-        attributed.setdefault(prop, []).append(i)
-    for prop, idxs in attributed.items():
-        if prop != pid:
-            notes.append("%d records contradict %s (reported by its own check), e.g. record %d" % (len(idxs), prop, idxs[0]))
-            continue
-        for i in idxs[:5]:
+    kinds = {}
+    distinct = set()
+    samples = []
+    n_recs = n_bad = 0
+    CHUNK = 400
+    for c0 in range(0, len(cases), CHUNK):
+        chunk = cases[c0:c0 + CHUNK]
+        recs, hangs = run_proofs(chunk, "%s_%d" % (pid, c0 // CHUNK))
+        for h in hangs:
+            p = C.write_replay(pid, "hang-%d" % len(violations), dict(kind="hang", what=h))
+            violations.append(dict(prop=pid, replay=p, what="verifier or prover did not return: " + h[:200]))
+        bad = validate_records(recs, "%s_%d" % (pid, c0 // CHUNK))
+        n_recs += len(recs)
+        n_bad += len(bad)
+        for i in bad:
             rec = recs[i]
+            prop = classify(rec)
+            fid = findings.match_generic("trie-record", prop, dict(k=rec.get("k"), verify=rec.get("verify"),
+                                                                    cls=str(rec.get("src", "")).split(":")[1] if ":" in str(rec.get("src", "")) else rec.get("src"),
+                                                                    mclass=re.sub(r"[0-9@]+", "", str(rec.get("src", "")).split(":")[1]) if ":" in str(rec.get("src", "")) else ""))
+            if fid:
+                known.append(fid)
+                continue
+            lst = attributed.setdefault(prop, [0, []])
+            lst[0] += 1
+            if len(lst[1]) < 5:
+                lst[1].append((n_recs - len(recs) + i, rec))
+        for rec in recs:
+            key = (rec.get("k"), str(rec.get("src", "")).split(":")[0])
+            kinds[key] = kinds.get(key, 0) + 1
+            distinct.add(hash(C.sha([rec.get("kv"), rec.get("key"), rec.get("proof"), rec.get("ups"), rec.get("keys"), rec.get("src")])))
+        if len(samples) < 3:
+            samples += [dict((k, v) for k, v in r.items() if k not in ("cv", "cn", "cvx", "queries")) for r in recs[1:200:67]][:3 - len(samples)]
+        if c0 + CHUNK < len(cases):
+            C.log("[%s] %d / %d cases, %d records judged, %d rejected" % (pid, c0 + len(chunk), len(cases), n_recs, n_bad))
+        del recs
+    for prop, (cnt, firsts) in attributed.items():
+        if prop != pid:
+            notes.append("%d records contradict %s (reported by its own check), e.g. record %d" % (cnt, prop, firsts[0][0]))
+            continue
+        for i, rec in firsts:
             p = C.write_replay(pid, "rec%d" % i, dict(kind="trie-record", property=prop, record=rec,
                                                       case=by_case.get(rec.get("case")), tier=tier, seed=seed))
             violations.append(dict(prop=prop, replay=p, what="real %s call disagrees with Trie.tla (src=%s verify=%s)" %
@@ -225,22 +245,15 @@ def run_plan(pid, tier, seed):
     for v in violations:
         C.log("VIOLATION property=%s replay=%s" % (v["prop"], v["replay"]))
         C.log("  " + v["what"])
-    kinds = {}
-    distinct = set()
-    for rec in recs:
-        key = (rec.get("k"), str(rec.get("src", "")).split(":")[0])
-        kinds[key] = kinds.get(key, 0) + 1
-        distinct.add(C.sha([rec.get("kv"), rec.get("key"), rec.get("proof"), rec.get("ups"), rec.get("keys"), rec.get("src")]))
-    samples = [dict((k, v) for k, v in r.items() if k not in ("cv", "cn", "queries")) for r in recs[1:200:67]]
     level = "exploration" if pid == "C18" else "model_checking"
-    cov = dict(states=r["states"], transitions=max(r["transitions"], 1), traces_validated_against_impl=len(recs) - len(bad),
-               samples=samples or [recs[0] if recs else {}], evaluations=len(recs), distinct_nontrivial=len(distinct),
+    cov = dict(states=r["states"], transitions=max(r["transitions"], 1), traces_validated_against_impl=n_recs - n_bad,
+               samples=samples or [{}], evaluations=n_recs, distinct_nontrivial=len(distinct),
                rule="cases = maps exported by TLC (MC_Trie) x prefix x store mode; records = real prover/verifier calls "
                     "(honest proofs of every key, seeded mutants from the C08 grammar, multi-proofs over random terminal "
                     "subsets, update batches); distinct by hash of (map, key, object, source); every record is non-trivial: "
                     "it is one real call with its verdict judged by TLC",
                exhaustive=False, records_by_kind={"%s/%s" % k: v for k, v in sorted(kinds.items())},
-               records_rejected=len(bad), known_findings=sorted({k["id"] for k in known}), notes=notes,
+               records_rejected=n_bad, known_findings=sorted({k["id"] for k in known}), notes=notes,
                design_level=dict(module="MC_Trie", N=n_mc, MaxKeys=k_mc, maps=r["states"], wall_s=round(r["wall"], 1)))
     C.write_evidence(pid, tier, seed, level, cov, time.time() - t0, ASSUME, violations=len(violations))
     return 1 if violations else 0
